@@ -27,6 +27,27 @@ pub fn check_case(c: &NetCase, obs: &mut Obs) -> Result<(), String> {
     loaded.deserialize(&bytes).map_err(|e| format!("deserialize of own bytes: {:?}", e))?;
     let tags: HashSet<String> = c.tags.iter().cloned().collect();
     let parsed = parse_network(&c.rules);
+    // the directive a csp rule carries is the text after `csp=` up to the next ',' as written;
+    // `csp` and `csp=` (no value) carry none - read from the rule text, independently of the parser
+    for p in &parsed {
+        if !p.f.is_csp() {
+            continue;
+        }
+        let opts = p.line.trim().rsplit_once('$').map(|x| x.1).unwrap_or("");
+        let mut written: Option<Option<String>> = None;
+        for o in opts.split(',') {
+            if o == "csp" {
+                written = Some(None);
+            } else if let Some(v) = o.strip_prefix("csp=") {
+                written = Some(if v.is_empty() { None } else { Some(v.to_string()) });
+            }
+        }
+        if let Some(w) = written {
+            if p.f.modifier_option != w {
+                return Err(format!("rule {:?}: directive as written {:?}, parsed as {:?}", p.line, w, p.f.modifier_option));
+            }
+        }
+    }
     let active = active_rules(&parsed);
     for r in &c.reqs {
         let Some(req) = mk_request(r) else { continue };
@@ -92,7 +113,9 @@ pub fn decode(t: &mut Tape) -> NetCase {
         let ex = t.chance(1, 3);
         let mut opts = vec![];
         if ex && t.chance(1, 3) {
-            opts.push("csp".to_string());
+            opts.push(if t.chance(1, 3) { "csp=".to_string() } else { "csp".to_string() });
+        } else if t.chance(1, 40) {
+            opts.push("csp=".to_string());
         } else {
             if nrules > 12 && t.chance(1, 2) {
                 opts.push(format!("csp=x-src d{}", k % 40));
@@ -143,7 +166,7 @@ pub fn decode(t: &mut Tape) -> NetCase {
 }
 
 pub fn check(ctx: &mut Ctx) {
-    ctx.rule = "1-10 $csp= rules / @@..$csp= / blanket @@..$csp on 7 overlapping patterns with 6 directives (duplicates frequent), optional domain/party/important/tag options (1 case in 6: domain= lists of one length 1-24 over a pool of 8-47 initiators, requests from that pool), plus ordinary rules; tag subset; 1-5 requests over all request-type strings (half forced to document types). Oracle: non-document types => None; a matching active blanket exception => None; otherwise set(enabled) minus set(disabled), None when empty; compared as the set of comma-separated parts, which must be duplicate-free; the same query on an engine built from the reversed list with optimisation on must give the same set, and so must a Blocker that received the rules one at a time (add_filter) and an engine that enabled the tags first and then loaded the serialized rules. Non-trivial = >= 2 distinct directives enabled and >= 1 exception, or a blanket exception.".into();
+    ctx.rule = "1-10 $csp= rules / @@..$csp= / blanket @@..$csp (also spelled `$csp=` with an empty value) on 7 overlapping patterns with 6 directives (duplicates frequent), optional domain/party/important/tag options (1 case in 6: domain= lists of one length 1-24 over a pool of 8-47 initiators, requests from that pool), plus ordinary rules; tag subset; 1-5 requests over all request-type strings (half forced to document types). Oracle: non-document types => None; a matching active blanket exception => None; otherwise set(enabled) minus set(disabled), None when empty; compared as the set of comma-separated parts, which must be duplicate-free; the same query on an engine built from the reversed list with optimisation on must give the same set, and so must a Blocker that received the rules one at a time (add_filter) and an engine that enabled the tags first and then loaded the serialized rules. Non-trivial = >= 2 distinct directives enabled and >= 1 exception, or a blanket exception.".into();
     ctx.assumptions = vec!["which csp rules match is decided by NetworkFilter::matches; directives contain no comma (the option grammar cannot express one)".into()];
     let n = ctx.tier.pick(800_000, 6_000_000);
     drive(ctx, "csp", n, 300, &decode, &check_case);
